@@ -4,6 +4,8 @@ import BSModel.Proofs.HeapLink
 import BSModel.Proofs.HeapIter
 import BSModel.Proofs.HeapDecompose
 import BSModel.Proofs.ParseLinkInv
+import BSModel.Proofs.HeapCopySpec
+import BSModel.Proofs.HeapCopyIso
 /-! # C01 — one consistent tree: every navigation view agrees after any edit history
 
 `Good h` says: there is a nested-set witness under which the children lists tile the parents' intervals and
@@ -211,6 +213,114 @@ example : (run (Heap.init [.soup, .tag, .tag, .str, .str])
      .decompose 1, .append 0 (.node 3)]).isOk = true := by decide
 example : ((decompose (Heap.init [.soup, .tag]) 0).toOption.map (fun h => (h.ne 0, h.kids 0))) = some (none, []) := by
   decide
+
+/-! ## copies (`copy.copy(el)`, `copy.deepcopy(el)`, `el.__copy__()`; Model/HeapCopy.lean)
+
+"The same holds for every fragment that was extracted, replaced, unwrapped, cleared out **or copied**: it is a self-contained tree with
+no parent, no siblings and no links into the tree it came from." `copy h x` mirrors `__deepcopy__`: fresh objects are allocated in
+document order of the source subtree and each is linked by the model's `append` under the clone of its parent. -/
+
+/-- a constructor call (an object of ANY class at the next unused id) keeps the forest consistent. `Good2`'s clause "ids from `next` on
+    are strings" is about the ids that remain unused; `KSame` ("no call turns a string into a tag") is what an allocation of a tag does
+    NOT satisfy and does not need: no id in use changes class or text -/
+theorem alloc_keeps_consistent {h : Heap} (hg : Good2 h) (k : Kind) (v : PStr) :
+    Good2 (alloc h k v).1 ∧ (∀ n, n ≠ h.next → (alloc h k v).1.kind n = h.kind n ∧ (alloc h k v).1.val n = h.val n) ∧
+    (alloc h k v).1.kind h.next = k ∧ (alloc h k v).1.val h.next = v ∧ (alloc h k v).1.next = h.next + 1 :=
+  alloc_good2_any hg k v
+
+/-- **a copy keeps the forest consistent**: whatever is copied (a string, a tag with its subtree, a whole BeautifulSoup object, an
+    element inside an extracted fragment or inside an earlier copy), a copy that returns, returns one consistent forest -/
+theorem copy_keeps_consistent {h h' : Heap} {x c : Nat} (hg : Good2 h) (hc : copy h x = .ok (h', c)) : Good2 h' := by
+  obtain ⟨_, w', st', inv⟩ := copy_cinv hg hc
+  exact (cinv_final inv).1
+
+/-- **the copy is a detached, self-contained tree of fresh objects.** The clone `c` is the first object the call allocates; it has no
+    parent, no siblings and no previous element, and the last element of its document order has no next element; its document order
+    is exactly the ids allocated by the call, in allocation order (every node of the copy is fresh: none existed before, so it shares
+    no node with any tree that existed before — those consist of ids below the old allocation counter); and every link of every node of
+    the copy (the five pointers and the children list) leads to a node of the copy: no link into the tree it came from -/
+theorem copy_is_detached_and_fresh {h h' : Heap} {x c : Nat} (hg : Good2 h) (hc : copy h x = .ok (h', c)) :
+    c = h.next ∧ h'.parent c = none ∧ h'.ps c = none ∧ h'.ns c = none ∧ h'.pe c = none ∧
+    (∀ l, (docOrder h' c).getLast? = some l → h'.ne l = none) ∧
+    docOrder h' c = List.range' h.next (h'.next - h.next) ∧ h.next < h'.next ∧
+    (∀ m, m ∈ docOrder h' c → h.next ≤ m ∧ m < h'.next) ∧
+    (∀ r m, r < h.next → m ∈ docOrder h r → m < h.next) ∧
+    (∀ m b, m ∈ docOrder h' c →
+      (h'.ne m = some b ∨ h'.pe m = some b ∨ h'.ns m = some b ∨ h'.ps m = some b ∨ h'.parent m = some b ∨ b ∈ h'.kids m) →
+      b ∈ docOrder h' c) := by
+  obtain ⟨rfl, w', st', inv⟩ := copy_cinv hg hc
+  obtain ⟨_, hroot, hdoc, _⟩ := cinv_final inv
+  have hl := root_no_links inv.wf hroot
+  have hmemr : ∀ m, m ∈ docOrder h' h.next → h.next ≤ m ∧ m < h'.next := by
+    intro m hm; rw [hdoc, List.mem_range'_1] at hm; have := inv.lt; omega
+  refine ⟨rfl, hroot, hl.1, hl.2.1, hl.2.2.1, ?_, hdoc, inv.lt, hmemr, fun r m hr hm => docOrder_old hg.1 hr hm, ?_⟩
+  · intro l hlast
+    have hmem : l ∈ docOrder h' h.next := List.mem_of_getLast? hlast
+    apply hl.2.2.2 l hmem
+    have hidx : (docOrder h' h.next)[(docOrder h' h.next).length - 1]? = some l := by
+      rw [← hlast, List.getLast?_eq_getElem?]
+    have := (docOrder_getElem? inv.wf hroot _ l).mp hidx
+    have hlen := docOrder_length inv.wf h.next
+    have := inv.wf.size_pos h.next
+    omega
+  · intro m b hm hlink
+    have ht := (docOrder_mem inv.wf hroot m).mp hm
+    exact (docOrder_mem inv.wf hroot b).mpr (by rw [tree_closed inv.wf hlink, ht])
+
+/-- **the source is untouched** — and so is everything else that existed: every object allocated before the copy keeps its parent, its
+    children list, its four sibling/element links, its class and its text -/
+theorem copy_leaves_source_untouched {h h' : Heap} {x c : Nat} (hg : Good2 h) (hc : copy h x = .ok (h', c)) :
+    ∀ a, a < h.next → h'.parent a = h.parent a ∧ h'.kids a = h.kids a ∧ h'.ne a = h.ne a ∧ h'.pe a = h.pe a ∧
+      h'.ns a = h.ns a ∧ h'.ps a = h.ps a ∧ h'.kind a = h.kind a ∧ h'.val a = h.val a := by
+  obtain ⟨_, w', st', inv⟩ := copy_cinv hg hc
+  exact inv.frame
+
+/-- **the copy is isomorphic to the source.** There is one map `φ` — "the element at index `j` of the source's document order ↦ the
+    `j`-th object the call allocates" — such that the document order of the clone is the document order of the source mapped by `φ`
+    (so `φ` is an order-preserving bijection between the two pre-orders: same length, element for element), every element's clone has
+    its class and its text, the children list of the clone of `d` is the children list of `d` mapped by `φ`, and the parent of the clone
+    of `d` is the clone of the parent of `d` (for every element other than the root of the copied subtree, whose clone has no parent:
+    `copy_is_detached_and_fresh`) -/
+theorem copy_is_isomorphic {h h' : Heap} {x c : Nat} (hg : Good2 h) (hc : copy h x = .ok (h', c)) :
+    ∃ φ : Nat → Nat, (∀ j k, (docOrder h x)[j]? = some k → φ k = h.next + j) ∧
+      docOrder h' c = (docOrder h x).map φ ∧
+      (∀ d, d ∈ docOrder h x → h'.kind (φ d) = h.kind d ∧ h'.val (φ d) = h.val d ∧ h'.kids (φ d) = (h.kids d).map φ) ∧
+      (∀ d, d ∈ docOrder h x → d ≠ x → ∃ π, h.parent d = some π ∧ π ∈ docOrder h x ∧ h'.parent (φ d) = some (φ π)) :=
+  copy_iso hg hc
+
+/-- **every finite history of editing calls, copies and constructor calls keeps the forest consistent** — histories may interleave
+    them in any way, in particular move elements between an original and its copy -/
+theorem history2_consistent :
+    ∀ (ops : List Op2) (h h' : Heap), Good2 h → (∀ op ∈ ops, op.kindsOK) → run2 h ops = .ok h' → Good2 h' := by
+  intro ops
+  induction ops with
+  | nil => intro h h' hg _ hr; simp only [run2] at hr; cases hr; exact hg
+  | cons op ops ih =>
+    intro h h' hg hok hr
+    simp only [run2] at hr
+    cases hs : step2 h op with
+    | error e => simp only [hs] at hr; cases hr
+    | ok h1 =>
+      simp only [hs] at hr
+      exact ih h1 h' (step2_good2 hg (hok op (by simp)) hs) (fun o ho => hok o (by simp [ho])) hr
+
+/-! non-vacuity: the parsed document `<a>x<b>y</b></a>z` (ids: 0 the BeautifulSoup object, 1 `a`, 2 `x`, 3 `b`, 4 `y`, 5 `z`); the
+    two-level subtree `b` is copied out of its middle (clone 6 with the string 7), the copied string is moved into the original, the
+    original `x` into the copy, the copy is copied again (8) and the whole document as well (10 …) -/
+def wParsed : Heap := (BS.ParseLink.prun BS.ParseLink.PSt.init [.newTag, .newStr, .newTag, .newStr, .pop, .pop, .newStr]).heap
+example : ((copy wParsed 3).toOption.map fun r => (r.2, docOrder r.1 r.2, r.1.parent 6, r.1.kids 6))
+    = some (6, [6, 7], none, [7]) := by decide
+example : ((copy wParsed 3).toOption.map fun r => (r.1.ne 7, r.1.kids 3, r.1.next)) = some (none, [4], 8) := by decide
+example : ((copy wParsed 0).toOption.map fun r => (docOrder r.1 r.2, r.1.kids 7, r.1.kind 6 == .soup))
+    = some ([6, 7, 8, 9, 10, 11], [8, 9], true) := by decide
+example : ((copy wParsed 0).toOption.map fun r => (r.1.parent 6, r.1.kids 1, r.1.kids 0)) = some (none, [2, 3], [1, 5]) := by decide
+example : ((copy wParsed 0).toOption.map fun r => ((docOrder wParsed 0).map wParsed.parent, (docOrder r.1 r.2).map r.1.parent))
+    = some ([none, some 0, some 1, some 1, some 3, some 0], [none, some 6, some 7, some 7, some 9, some 6]) := by decide
+example : ((copy wParsed 0).toOption.map fun r => ((docOrder wParsed 0).map wParsed.kids, (docOrder r.1 r.2).map r.1.kids))
+    = some ([[1, 5], [2, 3], [], [4], [], []], [[7, 11], [8, 9], [], [10], [], []]) := by decide
+example : ((run2 wParsed [.copy 3, .edit (.append 1 (.node 7)), .edit (.insert 6 0 [.node 2]), .copy 6, .alloc .tag [],
+    .edit (.append 10 (.node 8)), .copy 0, .edit (.extract 3), .copy 4]).toOption.map
+      fun h => (h.kids 1, h.kids 6, docOrder h 10, h.parent 8)) = some ([7], [2], [10, 8, 9], some 10) := by decide
 
 /-- **parse any document, then edit it in any way: still one consistent tree.** The heap the parser leaves
     behind (Model/ParseLink.lean: the pointer writes of `PageElement.setup`, `object_was_parsed`,
